@@ -227,13 +227,13 @@ MANDATORY = ["- -", "- - -", "- - - -", "CD -", "cr -", "CD - -", "C - -", "CD C
              "u -", "u - -", "u u", "Cu -", "uD C", "q -", "ms -", "k -", "K -", "n -", "n u"]
 
 def conc_cases(rng, thorough):
-    cap_fixed = 8000 if thorough else 2500
+    cap_fixed = 8000 if thorough else 2000
     out = ["conc 100000 dfs " + p for p in MANDATORY]
     fixed = ["CUD cr Ux", "CC UD", "x r D D", "uU u -"]
     if thorough: fixed += ["CDD CDD CDD", "CcDD crU", "U U U U", "CD CD D D", "u u u", "Cu qr k", "uu Cu -"]
     out += ["conc %d dfs %s" % (cap_fixed, p) for p in fixed]
     budget = 40000 if thorough else 2500
-    nrand = 60 if thorough else 16
+    nrand = 60 if thorough else 12
     for k in range(nrand):
         nt = 2 + rng.below(3)
         progs = [gen_prog(rng, 5 if nt == 2 else 3) for _ in range(nt)]
@@ -406,7 +406,7 @@ if cc_cases and drv is not None:
 
 # ------------------------------------------------------------------------------------------------ handles inside managed objects
 NESTED_EXPECTED_OK = ["traverse", "cascade", "tree_swap_unify"]
-NESTED_OPEN = ["pop_copy", "pop_move", "pop_conv_copy", "pop_all", "self_reset", "self_assign_null", "self_move_assign", "self_copy_assign"]
+NESTED_OPEN = ["pop_copy", "pop_move", "pop_conv_copy", "pop_all", "self_reset", "self_assign_null", "self_move_assign", "self_copy_assign", "empty_use_count"]
 nested_stats = {}
 if not ck.replay or str(rp.get("case", "")).startswith("nested "):
     nexe, nlog = ck.build_cpp("c12_nested", ["harness/C12/nested_harness.cpp"])
@@ -421,21 +421,11 @@ if not ck.replay or str(rp.get("case", "")).startswith("nested "):
             nested_stats[sc] = "ok" if okn else "FAILS"
             if not okn:
                 found = True
-                what = "handles inside managed objects, scenario %s: %s" % (sc, (outn.strip().splitlines() or ["?"])[-1][:120] if rcn == 0 else "crash (assert/ASan): " + (re.search(r"(ERROR: AddressSanitizer: [^\n]*|Assertion[^\n]*)", outn) or re.search(r".*", outn)).group(0)[:160])
+                what = "handles inside managed objects, scenario %s: %s" % (sc, (outn.strip().splitlines() or ["?"])[-1][:120] if rcn == 0 else "crash (assert/ASan/UBSan): " + (re.search(r"(ERROR: AddressSanitizer: [^\n]*|Assertion[^\n]*|runtime error: [^\n]*)", outn) or re.search(r".*", outn)).group(0)[:160])
                 rpl = {"case": "nested " + sc, "log_tail": crash_excerpt(outn)}
-                if sc in NESTED_OPEN: open_finding(what, rpl, "nested")
+                if sc in NESTED_OPEN: open_finding(what, rpl, "empty_use_count" if sc == "empty_use_count" else "nested")
                 else: ck.violation(what, rpl)
         samples.append({"case": "nested <scenario>", "result": nested_stats})
-# use_count() of an empty handle (std::shared_ptr: 0; tlx as shipped: null dereference): probed separately unless enabled in the main harness
-if not ck.replay and not gate("empty_use_count"):
-    pexe, plog = ck.build_cpp("c12_seq_uc0", ["harness/C12/cptr_harness.cpp"], extra=["-DC12_EMPTY_USE_COUNT"])
-    if pexe is not None:
-        one = os.path.join(ck.scratch, "uc0.txt"); open(one, "w").write("seq M DF,0\n")
-        rcu, outu = verif.sh([pexe, one], timeout=60)
-        if rcu != 0 or "P=ok" not in outu:
-            open_finding("use_count() of an empty handle: " + (re.search(r"runtime error: [^\n]*", outu).group(0)[:140] if "runtime error" in outu else outu.strip()[-140:]),
-                         {"case": "seq M DF,0"}, "empty_use_count")
-
 # ------------------------------------------------------------------------------------------------ real-thread stress run
 stress_stats = {}
 if run_stress:
@@ -464,8 +454,8 @@ if pr is not None and not pr["ok"]:
 ck.finish({
     "evaluations": len(seq_cases) + conc_stats["interleavings"],
     "distinct_nontrivial": len(distinct),
-    "rule": "(1) handle-operation histories over 2..8 typed handle variables (M CountingPtr<Obj>, C CountingPtr<const Obj>, N CountingPtrNoDelete<Obj>; handles of different kinds share objects through get()) and as many objects as the history creates: "
-            "corpus; every well-typed operation sequence of length <= 2 (quick) / 3 (thorough) over 3 variables of kinds MCM / MNN / MCN after 10 aliasing prefixes (incl. a default and a no-delete handle on one object); "
+    "rule": "(1) handle-operation histories over 2..8 typed handle variables (M CountingPtr<Obj>, C CountingPtr<const Obj>, N CountingPtrNoDelete<Obj>, B CountingPtr<Base> with Obj : Pad, Base so that Derived->Base conversions adjust the pointer; handles of different kinds share objects through get() and through adoption of raw pointers - also of objects that have no handle any more) and as many objects as the history creates: "
+            "corpus; every well-typed operation sequence of length <= 2 (quick) / 3 (thorough) over 3 variables of kinds MCM / MNN / MCN / MBB after 13 aliasing prefixes (incl. a default and a no-delete handle on one object); "
             "random histories from a pointer-tracking generator in 5 bias modes (mixed, alias-heavy, unify-heavy, lifetime churn, raw-pointer sharing across deleter kinds) with self-/alias-assignment aimed at. "
             "Each runs on the real class (counted object type with destructor log and live-instance set, ASan+UBSan+leak check) and on the extracted Coq model; "
             "after every step get()/bool/use_count()/unique()/payload of every variable of every deleter kind, the destructor log and the set of objects left alive by a no-delete handle are compared (all other observers - valid, empty, *, ->, the 12 comparison operators, operator<< - are checked against get()), and the property is evaluated on the implementation's observations alone. "
@@ -473,7 +463,7 @@ ck.finish({
             "(2) 2-4 real threads running programs over every mutating and observing member (copy/move construction and assignment, converting overloads, reset, swap, unify, unique/use_count, a no-delete handle) on one shared object and the clones unify() makes, under a deterministic scheduler (std::atomic inside tlx redirected by a force-included shim): "
             "every atomic operation (read-modify-write, plain load, plain store), the Deleter call and the element's copy constructor (inside unify()) are scheduling points; a fixed list of small scenarios (k = 2,3,4 threads each dropping their last handle at the same time, copy+drop against drop, use against the last releases, unify() against the release of the only other handle / another unify / two releases, every other member against a release) is ALWAYS enumerated completely, the other programs completely when they fit the budget, else sampled; the Deleter passed to CountingPtr counts its calls (exactly 1 required) and defers the release of the memory, so a double destruction is a reported verdict with its schedule, not a crash; every logged event trace (fetch_add/fetch_sub with the value read, Deleter, use) is projected onto each object and replayed on the extracted transition system of Conc.v (unify = clone-read + release on the original; the clone is a new instance). "
             "non-trivial = a thread is preempted between two of its shared actions; distinct = distinct event trace. "
-            "(3) real-thread stress with real std::atomic (2 and 3 threads; per round 1e5 mixed handle operations per thread on one shared object, then a release race: every thread lets go of each of 20000 objects at the same moment behind a per-object spin barrier, with a Deleter that counts its calls - every object must see exactly one; TSan build in the thorough tier): counted only in input_distribution.",
+            "(2b) fixed scenarios with handles INSIDE managed objects (lists consumed by head = head->next / std::move(head->next), an object keeping itself alive, swap/unify with member handles, a 2000-node cascade): destructor log + ASan only, outside the Coq model; those that fail on tlx as shipped are reported as open findings until enabled. (3) real-thread stress with real std::atomic (2 and 3 threads; per round 1e5 mixed handle operations per thread on one shared object, then a release race: every thread lets go of each of 20000 objects at the same moment behind a per-object spin barrier, with a Deleter that counts its calls - every object must see exactly one; TSan build in the thorough tier): counted only in input_distribution.",
     "samples": samples,
     "input_distribution": dict(stats, seq_ops=opstats, seq_variable_kinds=kstats, **conc_stats, stress_rounds_ok=stress_stats),
     "traces_validated_against_impl": conc_stats["interleavings"],
